@@ -52,7 +52,8 @@ CONSTANTS
   ReplMaps,    \* sequence of [src |-> terminal position, sub |-> Seq(env)]: replacement maps (C21):
                \* in environment sub[e] the terminal src has the value its image has in e (0: none)
   ChainMode,   \* "off" | "loose": a new node takes the previous constructed node as an operand unless all
-               \* its operands are initial nodes | "strict": it always does (after the first node).
+               \* its operands are initial nodes | "semi": unless it is a subscript of an initial node |
+               \* "strict": it always does (after the first node).
                \* Prunes programs whose nodes are combined out of order.
   MiKinds,     \* subset of {"fixed", "name", "slice"}: entries allowed in the multi-index of a[...]
   DumpFinalOnly \* TRUE: only programs whose last operation is in FinalOps are handed to the replay
@@ -125,6 +126,7 @@ Room == Len(store) < NInit + MaxNodes
 NotFinal(a) == store[a].op \notin FinalOps
 ChainOk(n) == \/ Len(store) = NInit
               \/ ChainMode = "loose" /\ \A k \in 1..Len(n.args) : n.args[k] <= NInit
+              \/ ChainMode = "semi" /\ n.op = "index" /\ \A k \in 1..Len(n.args) : n.args[k] <= NInit
               \/ \E k \in 1..Len(n.args) : n.args[k] = Len(store)
 Push(n) == Len(n.sh) <= MaxRank /\ (ChainMode # "off" => ChainOk(n)) /\ store' = Append(store, n)
 
